@@ -12,6 +12,8 @@ class Loop:
     modifies: Optional[List[str]] = None   # extra heap fields / ghost havocked (beyond syntactic)
     unroll: bool = False             # iterable has a literal length: unroll
     hints: List[Any] = field(default_factory=list)   # axiom instances (name, {var: expr}) assumed at the end of each iteration
+    focus: bool = False              # prove inv-preserve from the loop-head facts + asserts only (the asserts summarise the body)
+    asserts: List[str] = field(default_factory=list) # proof steps at the end of each iteration: each is an obligation, then assumed; entry(x) = value of x at the loop head
 
 
 @dataclass
